@@ -241,7 +241,10 @@ class ListV(V):
         self.fn = fn
 
     def copy(self):
-        return ListV(self.n, self.fn)
+        out = ListV(self.n, self.fn)
+        if getattr(self, "is_deque", False):
+            out.is_deque = True
+        return out
 
     def at(self, i):
         return self.fn(Z(i))
